@@ -39,6 +39,7 @@ type Config struct {
 	EarlyStderr    []byte `json:"early_stderr"`
 	NoLogger       bool   `json:"no_logger"`
 	DropClientCert bool   `json:"drop_client_cert"` // take no part in AutoMTLS (impostor / pre-AutoMTLS build)
+	DropMuxEnv     bool   `json:"drop_mux_env"`     // behave like a plugin built before the multiplexing field existed
 }
 
 var (
@@ -206,6 +207,9 @@ func vmain() {
 	}
 	if cfg.DropClientCert {
 		os.Unsetenv("PLUGIN_CLIENT_CERT")
+	}
+	if cfg.DropMuxEnv {
+		os.Unsetenv("PLUGIN_MULTIPLEX_GRPC")
 	}
 	crashIf("before-output")
 	if cfg.PartialLine != "" {
